@@ -1,10 +1,16 @@
 #!/bin/bash
-# try_seed.sh <patch.diff> <Cxx> [Cyy ...] : apply a seeded change to /repo, run the checks, undo.
+# try_seed.sh <patch.diff> <Cxx> [Cyy ...] : apply a seeded change to a scratch worktree of /repo
+# (HEAD + the uncommitted working-tree changes of /repo), run the checks against it, undo.
+# /repo itself is not touched, so this can run while /repo is being built or tested.
 P="$1"; shift
-cd /repo || exit 2
-if ! git diff --quiet; then echo "/repo has uncommitted changes"; exit 2; fi
-git apply "$P" || { echo "patch does not apply to /repo"; exit 2; }
+WT=/tmp/wt/seedrepo
+if [ ! -d "$WT" ]; then git -C /repo worktree add -q --detach "$WT" HEAD || exit 2; fi
+cd "$WT" || exit 2
+git checkout -q --detach "$(git -C /repo rev-parse HEAD)" 2>/dev/null
+git checkout -q -- . ; git clean -fdq
+git -C /repo diff | git apply 2>/dev/null
+git apply "$P" || { echo "patch does not apply"; git checkout -q -- .; exit 2; }
 for id in "$@"; do
-  /verif/bin/vcheck "$id" --no-evidence 2>&1 | grep -E "^==|FAIL|VIOLATION|ERROR" | cut -c1-260
+  VERIF_REPO="$WT" VERIF_FACTS_TAG=seed /verif/bin/vcheck "$id" --no-evidence 2>&1 | grep -E "^==|FAIL|VIOLATION|ERROR" | cut -c1-260
 done
-git checkout -- .
+git checkout -q -- . ; git clean -fdq
